@@ -161,7 +161,7 @@ def gen_wb(rng, big=False):
     return spell_tx.init_orig(spell.wb_from_form(form))
 
 
-ALL_TX = list(spell_tx.TX)
+ALL_TX = [t for t in spell_tx.TX if t != "blank_run"]
 
 
 def pick_tx(rng, channel):
@@ -208,8 +208,45 @@ def compare(ctx, wb, wb2, labels, channel, tag="meta"):
             extra={"orig_class": a["class"], "new_class": b["class"], "orig_msg": a.get("msg", ""), "new_msg": b.get("msg", ""),
                    "site": b.get("site", "") or a.get("site", ""), "labels": labels, "channel": channel, "diff": detail, "f16": f16},
         ))
+    if channel == "dict" and b["ok"] and tag == "meta":
+        stage_corr(ctx, wb2, b, case)
     ctx.record({"wb": case["wb"], "labels": labels, "channel": channel}, a["ok"] and bool(labels))
     return ca == cb
+
+
+def stage_corr(ctx, wb, r, case):
+    """Tie of the Lean header stage + structural pipeline (`Spell.headerStage` ∘ `Rows.formOut`) to the code: the
+    (noisy) raw survey sheet goes through cleanText / headerStage / dealiasType / formOut in the driver and the primary
+    instance it predicts must be the one in the implementation's XForm."""
+    import formobs
+
+    sv = spell.sheet(wb, "survey")
+    if sv is None:
+        return
+    st = spell.sheet(wb, "settings")
+    if st is not None and (len(st["rows"]) != 1 or any(c.strip().lower().replace(" ", "_") == "clean_text_values" for c in st["cols"])):
+        return
+    if spell.sheet(wb, "entities") is not None:
+        return
+    lists = []
+    ch = spell.sheet(wb, "choices")
+    if ch is not None:
+        idx = [i for i, h in enumerate(ch["cols"])
+               if (m := ctx.driver.call("spell.header", h=h, sheet="choices", double=any("::" in c for c in ch["cols"]))).get("tokens") == ["list name"]]
+        if len(idx) != 1:
+            return
+        lists = sorted({" ".join((r[idx[0]] or "").split()) if False else (r[idx[0]] or "").strip() for r in ch["rows"]} - {""})
+    m = ctx.driver.call(
+        "spell.form_raw", headers=sv["cols"], rows=[[v or "" for v in r] for r in sv["rows"]], lists=lists,
+        settings_headers=st["cols"] if st else [], settings_values=[v or "" for v in st["rows"][0]] if st else [])
+    ctx.count("stage:" + m["outcome"])
+    if m["outcome"] == "ok":
+        obs = formobs.observe(r["xform"])
+        if not formobs.nt_eq(obs["instance"], m["instance"]):
+            ctx.mismatch("Spell.headerStage + Rows.formOut vs implementation (primary instance)", case,
+                         formobs.nt_str(obs["instance"]), formobs.nt_str(m["instance"]))
+    elif m["outcome"] == "error":
+        ctx.mismatch("Spell.headerStage + Rows.formOut rejects a sheet the implementation accepts", case, "ok", m["err"])
 
 
 def strip(wb, keep_orig=False):
@@ -228,6 +265,10 @@ def meta_case(ctx, rng, big=False):
     if not channel_ok(wb, channel):
         channel = "dict"
     names = pick_tx(rng, channel)
+    if rng.random() < 0.06 and channel_ok(wb, "xlsx"):
+        # long blank runs around the readers' end-of-data limit, through the channels that keep blank rows
+        channel = rng.choice(["xlsx", "xlsx", "dict"])
+        names = ["blank_run"] + [t for t in names if t in ("hdr_case", "hdr_space", "hdr_alias", "type_alias", "cell_space")][:1]
     wb2, labels = spell_tx.apply(rng, wb, names)
     if not labels:
         ctx.count("no-site")
@@ -406,6 +447,22 @@ def exhaustive(ctx):
             for o in orders[1:]:
                 compare(ctx, build(orders[0]), build(o), [f"col_perm:{sname}:{'|'.join(o)}"], "dict", tag="alias")
                 n += 1
+    # blank runs of 59 / 60 rows (the Excel readers' limit: 61 ends the data) inside survey and choices, xlsx and dict
+    for sname in ("survey", "choices"):
+        for k in (spell_tx.BLANK_RUN_LIMIT - 1, spell_tx.BLANK_RUN_LIMIT):
+            for pos in (1, 2):
+                for channel in ("xlsx", "dict"):
+                    f = base_form()
+                    f["survey"].insert(1, {"type": "note", "label": "unnamed"})
+                    f["choices"].append({"list_name": "l", "name": "c"})
+                    wb = spell_tx.init_orig(spell.wb_from_form(f))
+                    wb2 = copy.deepcopy(wb)
+                    s2 = spell.sheet(wb2, sname)
+                    for _ in range(k):
+                        s2["rows"].insert(pos, [None] * len(s2["cols"]))
+                        s2["orig"].insert(pos, None)
+                    compare(ctx, wb, wb2, [f"blank_run:{sname}:{pos}x{k}"], channel, tag="alias")
+                    n += 1
     # blank rows in the choices sheet above choices that draw a row-numbered message (unlabeled choice)
     for k in range(0, 4):
         for cnt in (1, 2):
